@@ -358,6 +358,33 @@ func engineLoadFaults(ctx *Ctx) {
 		}
 		run("valid", "malformed-yaml", "missing", cfg, 0)
 	}
+	// configurations whose waits are really slept through and add up to a quarter of a minute (a minute and more in the thorough
+	// tier): whatever a loader does about the time already spent shows only here. One per shard, on shards of their own.
+	slow := []recovery.RetryConfig{
+		{MaxAttempts: 4, BaseDelay: 4 * time.Second, MaxDelay: 5 * time.Second, BackoffFactor: 1.5},
+		{MaxAttempts: 13, BaseDelay: time.Second, MaxDelay: time.Second, BackoffFactor: 1},
+		{MaxAttempts: 4, BaseDelay: 2 * time.Second, MaxDelay: 8 * time.Second, BackoffFactor: 2},
+		{MaxAttempts: 3, BaseDelay: 6 * time.Second, MaxDelay: 7 * time.Second, BackoffFactor: 1.1},
+	}
+	if ctx.Thorough {
+		slow = append(slow, recovery.RetryConfig{MaxAttempts: 3, BaseDelay: 35 * time.Second, MaxDelay: 40 * time.Second, BackoffFactor: 1.1},
+			recovery.RetryConfig{MaxAttempts: 8, BaseDelay: 10 * time.Second, MaxDelay: 10 * time.Second, BackoffFactor: 1},
+			recovery.RetryConfig{MaxAttempts: 6, BaseDelay: time.Second, MaxDelay: 5 * time.Minute, BackoffFactor: 2.5})
+	}
+	for i, cfg := range slow {
+		target := (3 + 2*i) % ctx.NShards
+		for (caseNo+1)%ctx.NShards != target {
+			caseNo++
+		}
+		if target == ctx.Shard {
+			t0 := time.Now()
+			run([]string{"malformed-yaml", "is-a-directory", "binary-garbage", "wrong-shape"}[i%4], "valid", "missing", cfg, 0)
+			ctx.R.Path("slept-through-configs", 1)
+			ctx.R.Path("seconds-slept-through", int64(time.Since(t0)/time.Second))
+		} else {
+			caseNo++
+		}
+	}
 	// the default configuration (100 ms base delay) on a few combinations
 	for i, c := range [][2]string{{"missing", "missing"}, {"valid", "missing"}, {"valid", "valid"}, {"malformed-yaml", "valid"}, {"permission-denied", "valid"}, {"valid", "permission-denied"},
 		{"is-a-directory", "missing"}, {"valid", "malformed-yaml"}, {"dangling-symlink", "valid"}, {"binary-garbage", "missing"}} {
